@@ -73,3 +73,298 @@ Proof.
     destruct H as [H|H]; apply Z.eqb_eq in H; rewrite H; reflexivity.
 Qed.
 
+
+(* ---------- to_bytes ---------- *)
+Lemma to_bytes_id x : hexlike x = false -> lib_to_bytes x = x.
+Proof.
+  unfold hexlike, lib_to_bytes. destruct x as [|a r]; [reflexivity|].
+  destruct (lib_fromhex (a :: r)); [discriminate|reflexivity].
+Qed.
+
+Lemma tb_nil fx : tb fx [] = [].
+Proof. reflexivity. Qed.
+
+Lemma tb_cons fx a r : tb fx (a :: r) = fx_tb fx (a :: r).
+Proof. reflexivity. Qed.
+
+Lemma tb_guard fx d : hex_guard fx d -> fx_tb fx (d_payload d) = d_payload d.
+Proof.
+  intros [H|[H Hc]]; [apply H|]. rewrite H. apply to_bytes_id. exact Hc.
+Qed.
+
+(* a byte string whose first byte is neither a hexadecimal digit nor white space is left alone *)
+Lemma to_bytes_first a r : hex_space a = false -> hex_digit a = None -> lib_to_bytes (a :: r) = a :: r.
+Proof.
+  intros Hs Hd. unfold lib_to_bytes. cbn [lib_fromhex]. rewrite Hs, Hd. reflexivity.
+Qed.
+
+Lemma tb_first fx a r :
+  ((forall x, fx_tb fx x = x) \/ fx_tb fx = lib_to_bytes) ->
+  hex_space a = false -> hex_digit a = None -> fx_tb fx (a :: r) = a :: r.
+Proof.
+  intros [H|H] Hs Hd; [apply H|]. rewrite H. apply to_bytes_first; assumption.
+Qed.
+
+Lemma hex_guard_kind fx d : hex_guard fx d -> (forall x, fx_tb fx x = x) \/ fx_tb fx = lib_to_bytes.
+Proof. intros [H|[H _]]; [left|right]; exact H. Qed.
+
+(* a standard locking script never reads as hexadecimal text: its first byte is 76, a9, 00 or 51..60 *)
+Lemma tb_guard_script fx d : standard d = true -> hex_guard fx d ->
+  fx_tb fx (spec_lock_script d) = spec_lock_script d.
+Proof.
+  intros Hstd Hg. apply hex_guard_kind in Hg.
+  destruct d as [st w p]. apply standard_inv in Hstd.
+  destruct st; cbn [spec_lock_script d_stype d_payload d_witver spec_push app].
+  1-4: destruct Hstd as [-> _]; apply tb_first; [exact Hg|reflexivity|reflexivity].
+  destruct Hstd as [Hw _]. unfold versions_1_16 in Hw. simpl in Hw.
+  repeat (destruct Hw as [<-|Hw]; [apply tb_first; [exact Hg|reflexivity|reflexivity]|]). contradiction.
+Qed.
+
+(* evaluate, then replace the to_bytes calls that got stuck on the symbolic payload (hypotheses of the form
+   [tb0 [b; ...] = [b; ...]]), and evaluate again *)
+Ltac tb_eval H := vm_compute; repeat (rewrite !H; vm_compute).
+Ltac tb_eval2 H H' := vm_compute; repeat (first [rewrite !H | rewrite !H']; vm_compute).
+Ltac tb_eval3 H H' H'' := vm_compute; repeat (first [rewrite !H | rewrite !H' | rewrite !H'']; vm_compute).
+(* the same, cheaper: the output record is evaluated once; only its address component (the one place where to_bytes
+   calls stay stuck on the symbolic payload) is rewritten and re-evaluated *)
+Ltac tb_addr H H' H'' :=
+  cbv beta iota; repeat (first [rewrite !H | rewrite !H' | rewrite !H'']; vm_compute); reflexivity.
+Ltac out_ok_tb H H' H'' :=
+  vm_compute; eexists; split; [reflexivity|]; split; [reflexivity|]; split; [reflexivity|]; split;
+  [reflexivity | first [reflexivity | tb_addr H H' H'']].
+
+(* to_bytes leaves the Base58 version bytes of the network alone *)
+Definition pfx_ok (fx : fixes) (net : network) : Prop :=
+  fx_tb fx (nw_prefix_address net) = nw_prefix_address net /\
+  fx_tb fx (nw_prefix_address_p2sh net) = nw_prefix_address_p2sh net.
+
+Lemma pfx_guard fx net : In net all_networks ->
+  ((forall x, fx_tb fx x = x) \/ fx_tb fx = lib_to_bytes) -> pfx_ok fx net.
+Proof.
+  intros Hn [H|H]; [split; apply H|]. unfold pfx_ok. rewrite H.
+  each_net Hn; split; vm_compute; reflexivity.
+Qed.
+
+Lemma tb_of fx x : fx_tb fx x = x -> tb fx x = x.
+Proof. destruct x; [reflexivity|]. intros H. exact H. Qed.
+
+(* the strict test of Output.__init__ passed and to_bytes left the arguments alone: the rest is lib_output_k *)
+Lemma lib_output_eq H160 fx a :
+  tb fx (a_hash a) = a_hash a -> tb fx (a_lock a) = a_lock a -> tb fx (a_pubkey a) = a_pubkey a ->
+  (match a_addr a with AaHd _ pub _ _ => tb fx pub = pub | _ => True end) ->
+  (match a_addr a, a_hash a, (match a_addr a with AaHd _ pub _ _ => pub | _ => a_pubkey a end), a_lock a with
+   | AaNone, [], [], [] => false | _, _, _, _ => true end) = true ->
+  lib_output H160 fx a =
+  lib_output_k H160 fx a (match a_lock a with [] => SOk [] [] [] | l => lib_script_parse l end).
+Proof.
+  intros Hh Hl Hp Hd Hs. unfold lib_output.
+  assert (E : lib_args_in fx a = a).
+  { unfold lib_args_in. destruct a as [aa ah ap al ast aw ae an].
+    cbn [a_addr a_hash a_pubkey a_lock a_stype a_witver a_enc a_net] in *.
+    rewrite Hh, Hl, Hp. f_equal. destruct aa; try reflexivity. rewrite Hd. reflexivity. }
+  rewrite E. clear E Hh Hl Hp Hd.
+  destruct (a_addr a); try reflexivity.
+  destruct (a_hash a); try reflexivity.
+  destruct (a_pubkey a); try reflexivity.
+  destruct (a_lock a); [discriminate Hs|reflexivity].
+Qed.
+
+Lemma std_payload_cons d : standard d = true -> exists a r, d_payload d = a :: r.
+Proof.
+  intros H. destruct d as [st w p]. apply standard_inv in H. cbn [d_payload].
+  destruct p as [|a r]; [|exists a, r; reflexivity].
+  exfalso. destruct st; destruct H as [_ H]; try (destruct H as [H|H]); simpl in H; discriminate H.
+Qed.
+
+(* ---------- transfer: where to_bytes leaves the strings it meets alone, the address object is the one built with
+              binary arguments taken as they are ([fxi fx]); the enumerations below then run on [fxi fx] ---------- *)
+Lemma tb_fxi fx x : tb (fxi fx) x = x.
+Proof. destruct x; reflexivity. Qed.
+
+Section Transfer.
+Variable H160 : bytes -> bytes.
+
+Lemma pkh_b58_tb fx pfx h : tb fx pfx = pfx -> tb fx h = h ->
+  lib_pkh_to_b58 fx pfx h = lib_pkh_to_b58 (fxi fx) pfx h.
+Proof. intros Hp Hh. unfold lib_pkh_to_b58. rewrite Hp, Hh, !tb_fxi. reflexivity. Qed.
+
+Lemma pkh_bech_tb fx hrp wv h : tb fx h = h -> lib_pkh_to_bech fx hrp wv h = lib_pkh_to_bech (fxi fx) hrp wv h.
+Proof. intros Hh. unfold lib_pkh_to_bech. rewrite Hh, tb_fxi. reflexivity. Qed.
+
+Definition p2shseg_free (fx : fixes) (hs : list bytes) (st : option string) (e : option enc) (wt : option string) (wv : Z)
+  : Prop :=
+  String.eqb (fst (addr_wt st e wt wv)) s_p2sh_segwit = false \/
+  (forall x v, In x hs -> lib_varstr x = Some v -> tb fx (H160 (x00 :: v)) = H160 (x00 :: v)).
+
+Lemma address_core_tb fx h dh prefix st e wt wv net :
+  tb fx h = h -> tb fx (fst dh) = fst dh -> tb fx (snd dh) = snd dh -> pfx_ok fx net ->
+  ((forall p, prefix = Some p -> tb fx p = p) \/ e = Some EBech) ->
+  p2shseg_free fx (match h with [] => [fst dh; snd dh] | _ => [h] end) st e wt wv ->
+  lib_address_core H160 fx h dh prefix st e wt wv net =
+  lib_address_core H160 (fxi fx) h dh prefix st e wt wv net.
+Proof.
+  intros Hh Hd1 Hd2 [Hp1 Hp2] Hpre Hseg. unfold lib_address_core, p2shseg_free in *.
+  destruct (addr_wt st e wt wv) as [wt1 wv1]. cbn [fst] in Hseg.
+  match goal with |- context [match ?E with EB58 => _ | EBech => _ end] => destruct E eqn:Ee end.
+  - (* Base58 *)
+    destruct Hpre as [Hpre|Hpre]; [|subst e; discriminate Ee].
+    match goal with |- context [lib_varstr ?HB] => set (hb := HB) end.
+    assert (Hin : In hb (match h with [] => [fst dh; snd dh] | _ => [h] end)).
+    { subst hb. destruct h; [|left; reflexivity].
+      match goal with |- context [if ?c then _ else _] => destruct c end; simpl; tauto. }
+    assert (Hhb : tb fx hb = hb).
+    { destruct h; simpl in Hin; [destruct Hin as [<-|[<-|[]]]|destruct Hin as [<-|[]]]; assumption. }
+    destruct (String.eqb wt1 s_p2sh_segwit) eqn:Ew.
+    + destruct Hseg as [Hseg|Hseg]; [discriminate|].
+      destruct (lib_varstr hb) as [v|] eqn:Ev; [|reflexivity].
+      specialize (Hseg hb v Hin Ev).
+      destruct prefix as [p|].
+      * rewrite (Hpre p eq_refl), tb_fxi. rewrite pkh_b58_tb; [reflexivity|apply Hpre; reflexivity|exact Hseg].
+      * rewrite orb_true_r. rewrite pkh_b58_tb; [reflexivity|apply tb_of; exact Hp2|exact Hseg].
+    + destruct prefix as [p|].
+      * rewrite (Hpre p eq_refl), tb_fxi. rewrite pkh_b58_tb; [reflexivity|apply Hpre; reflexivity|exact Hhb].
+      * rewrite orb_false_r.
+        match goal with |- context [if ?c then nw_prefix_address_p2sh net else nw_prefix_address net] => destruct c end;
+          (rewrite pkh_b58_tb; [reflexivity|apply tb_of; assumption|exact Hhb]).
+  - (* Bech32 *)
+    match goal with |- context [lib_pkh_to_bech fx ?P ?W ?HB] => set (hb := HB) end.
+    assert (Hhb : tb fx hb = hb).
+    { subst hb. destruct h; [|exact Hh].
+      match goal with |- context [if ?c then _ else _] => destruct c end; assumption. }
+    rewrite pkh_bech_tb by exact Hhb. reflexivity.
+Qed.
+
+(* hash160(b'') / sha256(b'') stand in for an empty hash: never the case for a non-empty [h] *)
+Lemma address_core_tb_ne fx a r dh prefix st e wt wv net :
+  tb fx (a :: r) = a :: r -> pfx_ok fx net ->
+  ((forall p, prefix = Some p -> tb fx p = p) \/ e = Some EBech) ->
+  (String.eqb (fst (addr_wt st e wt wv)) s_p2sh_segwit = false \/
+   (forall v, lib_varstr (a :: r) = Some v -> tb fx (H160 (x00 :: v)) = H160 (x00 :: v))) ->
+  lib_address_core H160 fx (a :: r) dh prefix st e wt wv net =
+  lib_address_core H160 (fxi fx) (a :: r) dh prefix st e wt wv net.
+Proof.
+  intros Hh [Hp1 Hp2] Hpre Hseg. unfold lib_address_core in *.
+  destruct (addr_wt st e wt wv) as [wt1 wv1]. cbn [fst] in Hseg.
+  match goal with |- context [match ?E with EB58 => _ | EBech => _ end] => destruct E eqn:Ee end.
+  - destruct Hpre as [Hpre|Hpre]; [|subst e; discriminate Ee].
+    destruct (String.eqb wt1 s_p2sh_segwit) eqn:Ew.
+    + destruct Hseg as [Hseg|Hseg]; [discriminate|].
+      destruct (lib_varstr (a :: r)) as [v|] eqn:Ev; [|reflexivity].
+      specialize (Hseg v eq_refl).
+      destruct prefix as [p|].
+      * rewrite (Hpre p eq_refl), tb_fxi. rewrite pkh_b58_tb; [reflexivity|apply Hpre; reflexivity|exact Hseg].
+      * rewrite orb_true_r. rewrite pkh_b58_tb; [reflexivity|apply tb_of; exact Hp2|exact Hseg].
+    + destruct prefix as [p|].
+      * rewrite (Hpre p eq_refl), tb_fxi. rewrite pkh_b58_tb; [reflexivity|apply Hpre; reflexivity|exact Hh].
+      * rewrite orb_false_r.
+        match goal with |- context [if ?c then nw_prefix_address_p2sh net else nw_prefix_address net] => destruct c end;
+          (rewrite pkh_b58_tb; [reflexivity|apply tb_of; assumption|exact Hh]).
+  - rewrite pkh_bech_tb by exact Hh. reflexivity.
+Qed.
+
+Definition p2shseg_free1 (fx : fixes) (h : bytes) (st : option string) (e : option enc) (wt : option string) (wv : Z)
+  : Prop :=
+  String.eqb (fst (addr_wt st e wt wv)) s_p2sh_segwit = false \/
+  (forall v, lib_varstr h = Some v -> tb fx (H160 (x00 :: v)) = H160 (x00 :: v)).
+
+Lemma address_new_tb fx h prefix st e wt wv net :
+  h <> [] -> fx_tb fx h = h -> pfx_ok fx net ->
+  ((forall p, prefix = Some p -> tb fx p = p) \/ e = Some EBech) ->
+  p2shseg_free1 fx h st e wt wv ->
+  lib_address_new H160 fx h prefix st e wt wv net = lib_address_new H160 (fxi fx) h prefix st e wt wv net.
+Proof.
+  intros Hne Hh Hp Hpre Hseg. destruct h as [|a r]; [congruence|].
+  unfold lib_address_new, lib_address_make. rewrite tb_fxi, (tb_of fx _ Hh).
+  apply address_core_tb_ne; [apply tb_of; exact Hh|exact Hp|exact Hpre|exact Hseg].
+Qed.
+
+(* an object that hashes its own data (HDKey / Key / Address(data=...)): hashed_data is empty *)
+Lemma address_make_data_tb fx h160 s256 prefix st e wt wv net :
+  tb fx h160 = h160 -> tb fx s256 = s256 -> pfx_ok fx net ->
+  ((forall p, prefix = Some p -> tb fx p = p) \/ e = Some EBech) ->
+  p2shseg_free fx [h160; s256] st e wt wv ->
+  lib_address_make H160 fx [] (h160, s256) prefix st e wt wv net =
+  lib_address_make H160 (fxi fx) [] (h160, s256) prefix st e wt wv net.
+Proof.
+  intros H1 H2 Hp Hpre Hseg. unfold lib_address_make. rewrite !tb_nil.
+  apply address_core_tb; [reflexivity|exact H1|exact H2|exact Hp|exact Hpre|exact Hseg].
+Qed.
+
+(* the address property of an output: the address that was given, or the one computed from hash / type / encoding *)
+Definition out_address_clean (fx : fixes) (a : oargs) (o : out) : Prop :=
+  match a_addr a with
+  | AaNone => match o_hash o with
+              | [] => True
+              | h => fx_tb fx h = h /\ pfx_ok fx (a_net a) /\
+                     p2shseg_free1 fx h (Some (o_stype o)) (Some (o_enc o)) None (o_witver o)
+              end
+  | _ => True
+  end.
+
+Lemma out_address_tb fx a o : out_address_clean fx a o -> lib_out_address H160 fx a o = lib_out_address H160 (fxi fx) a o.
+Proof.
+  unfold out_address_clean, lib_out_address. destruct (a_addr a); try reflexivity.
+  destruct (o_hash o) as [|x r]; [reflexivity|]. intros (Hh & Hp & Hseg).
+  rewrite address_new_tb; [reflexivity|discriminate|exact Hh|exact Hp|left; discriminate|exact Hseg].
+Qed.
+
+(* ---- Address.parse ---- *)
+Definition daddr_hash (a : daddr) : bytes := match a with DB58 _ h => h | DBech _ _ p => p end.
+
+Lemma deser_facts fx a e n dd : lib_deserialize fx a e n = Some dd ->
+  ds_hash dd = daddr_hash a /\ String.eqb (ds_wtype dd) s_p2sh_segwit = false /\
+  ds_enc dd = match a with DB58 _ _ => EB58 | DBech _ _ _ => EBech end.
+Proof.
+  unfold lib_deserialize. destruct a as [v h|hrp wv prog].
+  - destruct e as [[|]|]; try discriminate;
+      (destruct (nets_by nw_prefix_address v) as [|x1 l1], (nets_by nw_prefix_address_p2sh v) as [|x2 l2];
+       match goal with |- context [if ?c then _ else _] => destruct c end; try discriminate;
+       intros H; injection H as <-; repeat split; reflexivity).
+  - destruct e as [[|]|]; try discriminate;
+      (intros H; injection H as <-; cbn [ds_hash ds_wtype ds_enc daddr_hash]; repeat split; try reflexivity;
+       destruct (wv =? 0); reflexivity).
+Qed.
+
+Lemma find_network_in nm net : find_network nm = Some net -> In net all_networks.
+Proof. unfold find_network. intros H. apply find_some in H. exact (proj1 H). Qed.
+
+Lemma address_parse_tb fx a n :
+  daddr_hash a <> [] -> fx_tb fx (daddr_hash a) = daddr_hash a ->
+  (forall net, In net all_networks -> pfx_ok fx net) ->
+  (forall v h, a = DB58 v h -> tb fx v = v) ->
+  lib_address_parse H160 fx a n = lib_address_parse H160 (fxi fx) a n.
+Proof.
+  intros Hne Hh Hp Hv. unfold lib_address_parse.
+  change (lib_deserialize (fxi fx) a None n) with (lib_deserialize fx a None n).
+  destruct (lib_deserialize fx a None n) as [dd|] eqn:E; [|reflexivity].
+  destruct (deser_facts _ _ _ _ _ E) as (Ehash & Ewt & Eenc).
+  match goal with |- match ?F with Some _ => _ | None => _ end = _ => destruct F as [net|] eqn:En end; [|reflexivity].
+  assert (Hin : In net all_networks).
+  { destruct n as [nm|]; [exact (find_network_in _ _ En)|].
+    destruct (ds_network dd) as [nm|]; [exact (find_network_in _ _ En)|discriminate]. }
+  change (fx_witver (fxi fx)) with (fx_witver fx).
+  rewrite Ehash. apply address_new_tb; [exact Hne|exact Hh|exact (Hp net Hin)| |left; exact Ewt].
+  destruct a as [v h|hrp wv prog]; [left|right; rewrite Eenc; reflexivity].
+  intros p Ep. injection Ep as <-. exact (Hv v h eq_refl).
+Qed.
+
+Lemma out_is_k fx a sr o lock st nm addr :
+  lib_output_core H160 fx a sr = ROk o -> o_lock o = lock -> o_stype o = st -> o_net o = nm ->
+  lib_out_address H160 fx a o = addr ->
+  out_is (lib_output_k H160 fx a sr) lock st nm addr.
+Proof.
+  intros Hc Hl Hs Hn Ha. unfold lib_output_k. rewrite Hc. eexists. split; [reflexivity|].
+  cbn [with_addr o_lock o_stype o_net o_addr]. repeat split; assumption.
+Qed.
+
+End Transfer.
+
+(* one enumerated shape of "the output is exactly this": the constructor part is evaluated as it is (it never calls
+   to_bytes), the address property is moved to [fxi fx] first *)
+Ltac addr_side Htb Hp :=
+  unfold out_address_clean; cbn [a_addr a_net o_hash o_stype o_enc o_witver];
+  first [ exact I | split; [exact Htb | split; [exact Hp | unfold p2shseg_free1; left; reflexivity]] ].
+Ltac out_k Htb Hp :=
+  eapply out_is_k;
+  [ vm_compute; reflexivity | reflexivity | reflexivity | reflexivity
+  | rewrite out_address_tb; [vm_compute; reflexivity | addr_side Htb Hp] ].
